@@ -631,6 +631,13 @@ def field_store_sites(repo, tier):
                 if is_self and cls_q is not None and cls_q not in img and "**" not in kws:
                     obls.append(ground_obligation(oid, True, f"{loc} field of {cls_q} (not an image)", rel))
                     continue
+                # the target is an object built by the constructor of a result class that is not an image class
+                if isinstance(target, ast.Name) and isinstance(fnode, (ast.FunctionDef, ast.AsyncFunctionDef)) and "**" not in kws:
+                    tdefs = single_defs(fnode, target.id)
+                    if tdefs and all(d[0] == "assign" and isinstance(d[1], ast.Call) and dotted(d[1].func).split(".")[-1] in dt.classes
+                                     and dotted(d[1].func).split(".")[-1] not in img for d in tdefs):
+                        obls.append(ground_obligation(oid, True, f"{loc} {target.id} is a {dotted(tdefs[0][1].func)} (not an image)", rel))
+                        continue
                 pf = next((f for f in PAYLOAD_FIELDS if f in kws), None)
                 if pf is not None and SIZE_FIELD in kws and not (set(kws) & set(NUMBER_FIELDS)):
                     o = _size_obligation(oid, rel, call, fnode, "replace", pf, kws[pf], kws[SIZE_FIELD], True, True)
@@ -654,6 +661,27 @@ def _possible_strings(ix, at, e, depth=0):
     if not isinstance(e, ast.Name) or depth > 3:
         return None
     q, fnode = ix.enclosing(at)
+    # name bound once to a lookup in a constant dict: TABLE.get(key[, default]) / TABLE[key]
+    if isinstance(fnode, (ast.FunctionDef, ast.AsyncFunctionDef)):
+        defs = single_defs(fnode, e.id)
+        if len(defs) == 1 and defs[0][0] == "assign":
+            v = defs[0][1]
+            tab = None
+            if isinstance(v, ast.Call) and isinstance(v.func, ast.Attribute) and v.func.attr == "get" and v.args:
+                tab = _const_container(ix, fnode, v.func.value)
+                dflt = v.args[1] if len(v.args) > 1 else None
+                if dflt is not None and not (isinstance(dflt, ast.Constant) and (dflt.value is None or isinstance(dflt.value, str))):
+                    tab = None
+            elif isinstance(v, ast.Subscript):
+                tab = _const_container(ix, fnode, v.value)
+                dflt = None
+            if isinstance(tab, ast.Dict) and all(isinstance(x, ast.Constant) for x in tab.values):
+                out = {x.value for x in tab.values if isinstance(x.value, str)}
+                if isinstance(v, ast.Call) and len(v.args) > 1 and isinstance(v.args[1].value, str):
+                    out.add(v.args[1].value)
+                return out
+            if isinstance(v, ast.Constant) and isinstance(v.value, str):
+                return {v.value}
     cur = at
     for a in ix.ancestors(at):
         if isinstance(a, ast.For) and _within(cur, a.body):
@@ -669,6 +697,22 @@ def _possible_strings(ix, at, e, depth=0):
         if a is fnode:
             break
         cur = a
+    return None
+
+
+def _const_container(ix, fnode, e):
+    """The literal display a name denotes: bound once in the function, or a module-level constant never rebound."""
+    if isinstance(e, (ast.Dict, ast.List, ast.Tuple, ast.Set)):
+        return e
+    if isinstance(e, ast.Name):
+        if isinstance(fnode, (ast.FunctionDef, ast.AsyncFunctionDef)):
+            defs = single_defs(fnode, e.id)
+            if defs:
+                return defs[0][1] if len(defs) == 1 and defs[0][0] == "assign" and isinstance(defs[0][1], (ast.Dict, ast.List, ast.Tuple, ast.Set)) else None
+        v = ix.mod.assigns.get(e.id)
+        if isinstance(v, (ast.Dict, ast.List, ast.Tuple, ast.Set)):
+            n_bind = sum(1 for n in ast.walk(ix.mod.tree) if isinstance(n, ast.Name) and n.id == e.id and isinstance(n.ctx, ast.Store))
+            return v if n_bind == 1 else None
     return None
 
 
@@ -694,6 +738,16 @@ def _strings_of_iterable(ix, at, it, pos, fnode, depth):
                 return None
             out |= r
         return out
+    if isinstance(it, ast.Name) and isinstance(fnode, (ast.FunctionDef, ast.AsyncFunctionDef)) and depth <= 3 and not single_defs(fnode, it.id):
+        c = _const_container(ix, fnode, it)
+        return _strings_of_iterable(ix, at, c, pos, fnode, depth + 1) if c is not None else None
+    if isinstance(it, ast.Call) and isinstance(it.func, ast.Attribute) and it.func.attr == "items" and isinstance(it.func.value, ast.Name):
+        c = _const_container(ix, fnode, it.func.value)
+        if isinstance(c, ast.Dict):
+            ks = [k for k in c.keys] if pos == 0 else ([v for v in c.values] if pos == 1 else list(c.keys) + list(c.values))
+            if all(isinstance(x, ast.Constant) for x in ks):
+                return {x.value for x in ks if isinstance(x.value, str)}
+        return None
     if isinstance(it, ast.Name) and isinstance(fnode, (ast.FunctionDef, ast.AsyncFunctionDef)) and depth <= 3:
         defs = single_defs(fnode, it.id)
         out = set()
@@ -794,6 +848,13 @@ class ChrAnalysis:
                 if isinstance(call, ast.Call) and isinstance(call.func, ast.Attribute) and call.func.attr in ("sub", "subn") and a in call.args:
                     return self.patterns.get(dotted(call.func.value))
                 return None
+        # parameter of a named function that is only ever used as the replacement callback of PATTERN.sub(fn, ...)
+        if isinstance(self.fnode, (ast.FunctionDef, ast.AsyncFunctionDef)):
+            params = [a.arg for a in self.fnode.args.posonlyargs + self.fnode.args.args if a.arg not in ("self", "cls")]
+            if params and params[0] == name and not [d for d in single_defs(self.fnode, name) if d[0] != "param"]:
+                tab = self._callback_pattern(self.fnode.name)
+                if tab is not None:
+                    return tab
         if isinstance(self.fnode, (ast.FunctionDef, ast.AsyncFunctionDef)):
             defs = single_defs(self.fnode, name)
             tabs = []
@@ -807,6 +868,24 @@ class ChrAnalysis:
                     return None
             if tabs and all(t is not None for t in tabs) and all(t == tabs[0] for t in tabs):
                 return tabs[0]
+        return None
+
+    def _callback_pattern(self, fname):
+        """Group table of the pattern when every reference to function `fname` in the module is the replacement argument of
+        <compiled pattern>.sub / subn (so its parameter is a match object of that pattern); None otherwise."""
+        tabs = []
+        for n in ast.walk(self.mod.tree):
+            ref = (isinstance(n, ast.Name) and n.id == fname and isinstance(n.ctx, ast.Load)) or \
+                  (isinstance(n, ast.Attribute) and n.attr == fname and isinstance(n.ctx, ast.Load))
+            if not ref:
+                continue
+            call = self.ix.parent.get(id(n))
+            if isinstance(call, ast.Call) and isinstance(call.func, ast.Attribute) and call.func.attr in ("sub", "subn") and call.args and call.args[0] is n:
+                tabs.append(self.patterns.get(dotted(call.func.value)))
+            else:
+                return None
+        if tabs and all(t is not None and t == tabs[0] for t in tabs):
+            return tabs[0]
         return None
 
     def int_of_text(self, e, base, at):
